@@ -18,7 +18,9 @@ def tm(k, v, ck='iri', tt=''):
     return {'k': k, 'v': v, 'ck': ck, 'tt': tt}
 
 
-FOCUS = ['\\', '"', "'", '%', '\t', '\n', '<>', '{}', ' ', 'é', '\x07', '\u2028', '^|`']
+FOCUS = ['\\', '"', "'", '%', '\t', '\n', '<>', '{}', ' ', 'é', '\x07', '\u2028', '^|`',
+         # values that contain the text of a reference of the mapping's own templates (a value is data, never a template)
+         ['{w}', '{v}', '{k}', '{l}', '{w'], ['\n'], ['$(w)', '%(v)s', '{0}', '\\{v\\}']]
 
 
 def build_case(rng, nrows, safe, printable, nquads=True, focus=None):
